@@ -4,7 +4,8 @@ Decided here:
   C10-R1  key format agreement: extend_context_with_wild_cards stores the set of label L under the text that the
           wild-card terminal prints as (Display of Atomic::WildCardProp, which mk_atom copies into formula_str and
           eval_node canonises), with an empty domain map and renaming; canonize_subform leaves `%` and name
-          characters untouched (they reach only its default arm);
+          characters untouched: on its summary (helpers / methods inlined), with the current character replaced by a
+          representative of a label character, the only effect that stays feasible is `push(ch)` onto the canonical string;
   C10-R2  wild-card protocol: a wild-card terminal is served by the cache-hit path and by nothing else (its arm is
           unreachable!()), so (a) set and counter are installed together, (b) wild-card entries are never evicted and a
           hit for them is always admitted (`WC |..` in the admission guard), (c) no scope entry can leak and change
